@@ -6,17 +6,18 @@
     (status, headers, body as parsed by the runtime's parsers).
 
     [well_formed s]: the HTTPClient sets Response.Request, as http.Client does.
-    [decoder_panics s]: selector of the known finding ical_decoder_panic — the third-party
-    iCalendar/vCard decoder panics on a text of this response. *)
+    [vcard_decoder_panics s]: the third-party vCard decoder, which the carddav client calls
+    unguarded, panics on a text of this response (never observed; a panic of go-ical, which
+    does occur, is turned into an error by the caldav client since the repair c4d1d95). *)
 From GW Require Import Base ClientTotal ClientTotalProofs.
 
 (** No client method panics, whatever the status, the headers and the body.
     Partial: the parsers outside /repo's decision logic (encoding/xml's tokenizer, mime,
     net/url, strconv, http.ParseTime, go-ical, go-vcard) enter as data; that they return at
-    all is exercised by the harness, not proved — and go-ical is known not to (the hypothesis
-    [decoder_panics s = false], refuted below). *)
+    all is exercised by the harness, not proved; for go-vcard, whose panic the client would
+    not survive, that is the visible hypothesis [vcard_decoder_panics s = false]. *)
 Theorem C14_no_panic_partial : forall m path s,
-  well_formed s = true -> decoder_panics s = false -> run m path s <> CPanic.
+  well_formed s = true -> vcard_decoder_panics s = false -> run m path s <> CPanic.
 Proof. exact run_no_panic_kf. Qed.
 Print Assumptions C14_no_panic_partial.
 
@@ -24,7 +25,7 @@ Print Assumptions C14_no_panic_partial.
     multi-status was required and the status is not 207, or the body (headers) cannot be
     interpreted ([must_fail], the specification).  Partial in the same sense. *)
 Theorem C14_error_iff_partial : forall m path s,
-  well_formed s = true -> decoder_panics s = false ->
+  well_formed s = true -> vcard_decoder_panics s = false ->
   (c_is_err (run m path s) = true <-> must_fail m path s = true).
 Proof. exact run_error_iff_kf. Qed.
 Print Assumptions C14_error_iff_partial.
@@ -102,14 +103,7 @@ Print Assumptions C14_spec_exec.
 
 (** Agreement of the implementation with the model entails the specification. *)
 Theorem C14_agree_implies_spec_ok : forall m path s o,
-  well_formed s = true -> decoder_panics s = false ->
+  well_formed s = true -> vcard_decoder_panics s = false ->
   model_agrees m path s o = true -> spec_ok m path s o = true.
 Proof. exact agree_implies_spec_ok_kf. Qed.
 Print Assumptions C14_agree_implies_spec_ok.
-
-(** Known finding ical_decoder_panic: where the decoder panics, the call panics. *)
-Theorem C14_ical_decoder_panic_refuted :
-  exists m path s, well_formed s = true /\ decoder_panics s = true /\
-    run m path s = CPanic /\ spec_ok m path s (mkObs 1 (model_out m path s)) = false.
-Proof. exact kf_ical_decoder_panic_refuted. Qed.
-Print Assumptions C14_ical_decoder_panic_refuted.
